@@ -12,12 +12,13 @@ import (
 )
 
 // thoroughImpl extends a quick run with
-//  (a) a re-evaluation of all rules under CHA-only call resolution — verdicts
-//      must agree with the VTA run;
-//  (b) the sensitivity suite: every confirmed seeded change kept under
-//      <verif>/seeded that names this property and is marked detected is applied
-//      to a scratch copy of the CURRENT tree and the property's rules must report
-//      at least one violation.
+//
+//	(a) a re-evaluation of all rules under CHA-only call resolution — verdicts
+//	    must agree with the VTA run;
+//	(b) the sensitivity suite: every confirmed seeded change kept under
+//	    <verif>/seeded that names this property and is marked detected is applied
+//	    to a scratch copy of the CURRENT tree and the property's rules must report
+//	    at least one violation.
 func thoroughImpl(c *Ctx, spec *PropSpec, repo string, extra map[string]interface{}) {
 	// (a) CHA cross-check
 	P2 := *c.P
